@@ -46,7 +46,8 @@ QXmppElementPrivate::QXmppElementPrivate(const QDomElement &element)
     QDomNamedNodeMap attrs = element.attributes();
     for (int i = 0; i < attrs.size(); i++) {
         QDomAttr attr = attrs.item(i).toAttr();
-        attributes.insert(attr.name(), attr.value());
+        // nodeName() keeps the prefix of namespaced attributes (xml:lang), name() does not
+        attributes.insert(attr.nodeName(), attr.value());
     }
 
     for (auto childNode = element.firstChild();
